@@ -15,6 +15,7 @@ package filter
 //@ emits: decls
 //@ serves: filter len=1 in=typs[0]
 //@ o-sig: (predicate func($in) bool, list []$in) (r []$in)
+//@ o-mutates: list
 //@ o-requires: predicate != nil
 //@ o-ensures: [length] len(r) == countIf(predicate, list, len(list))
 //@ o-ensures: [kept-in-order] forall k int :: 0 <= k && k < len(list) && predicate(list[k]) ==> r[countIf(predicate, list, k)] == list[k]
